@@ -581,9 +581,12 @@ int main(void)
 	the_path->dir = heap_str("d");
 	the_path->next = NULL;
 	root.path = the_path;
+#if WITH_PATH == 2
+	/* instances that an earlier parse already entered borrow the path */
 	if (O->type == CFGT_SEC)
 		for (i = 0; i < NV; i++)
 			O->values[i]->section->path = the_path;
+#endif
 #endif
 	/* existing annotation on the option */
 	{
